@@ -329,25 +329,25 @@ theorem gsites_resolves {defs : GroupDefs} {p : GParticle} {start : Nat} {gs : L
 compute for the occurrence skeleton -/
 theorem mem_occursG {defs : GroupDefs} {p : GParticle} (hd : (namesG defs p).Nodup)
     {ss : List Site} (h : occursG defs p = some ss) {s : Site} (hs : s ∈ ss) :
-    ∃ ss' t, occurs (sites (flat defs p)) = some ss' ∧ t ∈ ss' ∧
-      t.name = s.name ∧ t.min = s.min ∧ t.max = s.max := by
+    ∃ t ∈ occurs (sites (flat defs p)), t.name = s.name ∧ t.min = s.min ∧ t.max = s.max := by
   unfold occursG at h
   cases hg : gsites defs p (typeBase defs) with
   | none => simp [hg] at h
   | some gs =>
-    simp only [hg, Option.bind_some] at h
+    simp only [hg, Option.map_some, Option.some.injEq] at h
     have hsig := gsites_sigs hg
     have hnames : gs.map (·.name) = names (flat defs p) := by
       rw [sigs_names, hsig, ← sigs_names, sites_names]
-    rw [occurs_nodup gs (by rw [hnames]; exact hd), Option.some.injEq] at h
+    rw [occurs_nodup gs (by rw [hnames]; exact hd)] at h
     subst h
     obtain ⟨s0, hs0, rfl⟩ := List.mem_map.1 hs
     have hmem : s0.sig ∈ sigs (sites (flat defs p)) := by
       rw [← hsig]; exact List.mem_map.2 ⟨s0, hs0, rfl⟩
     obtain ⟨t0, ht0, ht0sig⟩ := List.mem_map.1 hmem
     obtain ⟨h1, h2, h3⟩ := processAttrPath_sig ht0sig
-    exact ⟨_, processAttrPath t0, occurs_sites (flat defs p) hd,
-      List.mem_map.2 ⟨t0, ht0, rfl⟩, h1, h2, h3⟩
+    refine ⟨processAttrPath t0, ?_, h1, h2, h3⟩
+    rw [occurs_sites (flat defs p) hd]
+    exact List.mem_map.2 ⟨t0, ht0, rfl⟩
 
 /-! ### the language against the language of the skeleton -/
 
@@ -593,10 +593,10 @@ theorem nonlist_sound_groups_core (defs : GroupDefs) (p : GParticle) (hd : (name
     (w : List Str) (hw : GMatches defs p w)
     (ss : List Site) (h : occursG defs p = some ss) (s : Site) (hs : s ∈ ss)
     (hl : s.isList = false) : w.count s.name ≤ 1 := by
-  obtain ⟨ss', t, hocc, ht, hn, _, hmx⟩ := mem_occursG hd h hs
+  obtain ⟨t, ht, hn, _, hmx⟩ := mem_occursG hd h hs
   obtain ⟨w', hw', hperm⟩ := gmatches_flat hw
   have hl' : t.isList = false := by simpa only [Site.isList, hmx] using hl
-  have := nonlist_sound_core (flat defs p) hd w' hw' ss' hocc t ht hl'
+  have := nonlist_sound_core (flat defs p) hd w' hw' t ht hl'
   rw [← hperm.count_eq, ← hn]
   exact this
 
@@ -604,10 +604,10 @@ theorem required_sound_groups_core (defs : GroupDefs) (p : GParticle) (hd : (nam
     (hwf : wfG defs p = true) (w : List Str) (hw : GMatches defs p w)
     (ss : List Site) (h : occursG defs p = some ss) (s : Site) (hs : s ∈ ss)
     (hr : 1 ≤ s.min) (hl : s.isList = false) : w.count s.name = 1 := by
-  obtain ⟨ss', t, hocc, ht, hn, hmn, hmx⟩ := mem_occursG hd h hs
+  obtain ⟨t, ht, hn, hmn, hmx⟩ := mem_occursG hd h hs
   obtain ⟨w', hw', hperm⟩ := gmatches_flat hw
   have hl' : t.isList = false := by simpa only [Site.isList, hmx] using hl
-  have := required_sound_core (flat defs p) hd hwf w' hw' ss' hocc t ht (by omega) hl'
+  have := required_sound_core (flat defs p) hd hwf w' hw' t ht (by omega) hl'
   rw [← hperm.count_eq, ← hn]
   exact this
 
@@ -615,9 +615,9 @@ theorem list_needed_groups_core (defs : GroupDefs) (p : GParticle) (hd : (namesG
     (hwf : wfG defs p = true) (hlive : liveG defs p = true)
     (ss : List Site) (h : occursG defs p = some ss) (s : Site) (hs : s ∈ ss)
     (hl : s.isList = true) : ∃ w, GMatches defs p w ∧ 2 ≤ w.count s.name := by
-  obtain ⟨ss', t, hocc, ht, hn, _, hmx⟩ := mem_occursG hd h hs
+  obtain ⟨t, ht, hn, _, hmx⟩ := mem_occursG hd h hs
   have hl' : t.isList = true := by simpa only [Site.isList, hmx] using hl
-  obtain ⟨w, hw, hc⟩ := list_needed_core (flat defs p) hd hwf hlive ss' hocc t ht hl'
+  obtain ⟨w, hw, hc⟩ := list_needed_core (flat defs p) hd hwf hlive t ht hl'
   have hres : resolves defs p = true := by
     unfold occursG at h
     cases hg : gsites defs p (typeBase defs) with
